@@ -82,10 +82,10 @@ Proof.
   { apply orb_false_iff. split; [apply Z.ltb_ge; lia | apply Z.leb_gt; lia]. }
   assert (Hcases : m = 0 \/ m = 1 \/ m = 2 \/ m = 3 \/ m = 4 \/ m = 5 \/ m = 6 \/ m = 7) by lia.
   unfold EV_READ, EV_WRITE, EV_ERROR in *.
-  destruct Hd as [->|[->|->]];
-    destruct Hcases as [->|[->|[->|[->|[->|[->|[->| ->]]]]]]];
+  destruct Hd as [-> | [-> | ->]];
+    destruct Hcases as [-> | [-> | [-> | [-> | [-> | [-> | [-> | ->]]]]]]];
     try (exfalso; cbn in Hland; lia); try (exfalso; apply Hne; reflexivity);
-    (destruct (rm_interest_mod_case fd _ s e0 Hb eq_refl) as (R1 & R2 & R3);
+    (match goal with r0 := rm_interest fd ?dd s |- _ => destruct (rm_interest_mod_case fd dd s e0 Hb eq_refl) as (R1 & R2 & R3) end;
        [ rewrite Hint; reflexivity | rewrite Hint; reflexivity | rewrite Hint; reflexivity | exact Hk | ];
      subst r entry' entry; rewrite Hint in R2, R3;
      split; [exact R1|]; rewrite R2; cbn [i_int i_rd i_wr i_er];
